@@ -69,6 +69,7 @@ CopyOK(e) ==
         /\ (e.ops[i].errcopy => e.ops[i].errorig)
   /\ (e.concurrent => Len(e.written) = 0)          \* a concurrently usable copy writes no memory it shares with the original
   /\ (e.deep => e.nshared = 0 /\ e.origintact)     \* a deep copy shares nothing; mutating every byte of it leaves the original intact
+  /\ e.origgraph                                   \* deriving the copy rebinds nothing in the original (same reachable backing arrays and maps)
 
 SchedOK(e) == ~e.panic /\ e.races = 0 /\ e.seqequal
 =============================================================================
